@@ -38,6 +38,8 @@ class Sem:
             nm = enc["name"].split(".")[-1]
             if nm in self.cx.repo.classes and enc["module"].startswith("prov"):
                 return PyV("class", self.cx.repo.classes[nm])
+            if enc["module"] == "builtins" and not nm.endswith("Error") and nm not in ("Exception", "Warning"):
+                return PyV("builtin", nm)
             return PyV("extclass", enc["module"] + "." + enc["name"])
         if k == "func":
             q = "%s.%s" % (enc["module"], enc["name"])
@@ -174,7 +176,7 @@ class Sem:
             return NOT(EQ(v.t, '""'))
         if k == "int":
             return NOT(EQ(v.t, "0"))
-        if k in ("Ns", "QN", "Ident", "Lit", "DT"):
+        if k in ("Ns", "QN", "Ident", "Lit", "DT", "cls"):
             return "true"
         if k == "Flt":
             return NOT("(flt_is_zero %s)" % v.t)
@@ -283,6 +285,8 @@ class Sem:
             return "(flt_eq %s %s)" % (a.t, b.t)
         if ka == kb == "ref":
             ca = self.cx.repo.classes.get(a.ty.args[0])
+            if st is not None and st.spec:
+                return EQ(a.t, b.t)  # in specifications == on object references is identity
             if ca is not None and ca.lookup("__eq__") is not None:
                 hook = getattr(self, "ref_eq_hook", None)
                 if hook:
@@ -379,13 +383,13 @@ class Sem:
         if "canon_in" in cx.funs_known:
             return
         cx.funs_known.add("canon_in")
-        tn = cx.sorts.sort(T.Tup(T.QN, T.VAL))
+        tn = cx.sorts.sort(T.Tup(T.VAL, T.VAL))
         cx.sorts.sort(T.Tup(T.STR, T.VAL))
         cx.funs.append("(declare-fun canon_in ((Seq %s) String Val) Bool)" % tn)
         if "canon_in" in getattr(self, "reveals", ()):
             cx.funs.append(
                 "(assert (forall ((l (Seq %s)) (u String) (c Val)) (= (canon_in l u c) (exists ((a QN) (v Val)) "
-                "(and (seq.contains l (seq.unit (mk_%s a v))) (= (qn_uri a) u) (= (ck v) c))))))" % (tn, tn))
+                "(and (seq.contains l (seq.unit (mk_%s (VQN a) v))) (= (qn_uri a) u) (= (ck v) c))))))" % (tn, tn))
 
     # ---------------------------------------------------------------- str()
     def py_str(self, v):
@@ -415,6 +419,10 @@ class Sem:
         if k == "Val":
             self.need_fun("py_str")
             return "(py_str %s)" % v.t
+        if k == "ref":
+            # str(object): its __str__ (PROV-N text of a record); only its value is used (error messages)
+            self.need_fun("py_str")
+            return "(ref_str %s)" % v.t
         if k == "opt":
             S = self.cx.sorts
             inner = v.ty.args[0]
@@ -457,6 +465,18 @@ class Sem:
         "float": T.FLT,
     }
 
+    def need_subclass_fn(self):
+        cx = self.cx
+        if "subclass_id" in cx.funs_known:
+            return
+        cx.funs_known.add("subclass_id")
+        pairs = []
+        for c in cx.repo.classes.values():
+            for b in c.mro:
+                if hasattr(b, "name"):
+                    pairs.append("(and (= c %d) (= b %d))" % (cx.class_ids[c.name], cx.class_ids[b.name]))
+        cx.funs.append("(define-fun subclass_id ((c Int) (b Int)) Bool (or %s))" % " ".join(pairs))
+
     def class_names(self, clsval):
         """python-level class spec (class, tuple of classes) -> list of simple names"""
         if isinstance(clsval, PyV):
@@ -472,6 +492,15 @@ class Sem:
                     out.extend(self.class_names(x))
                 return out
         raise Unsupported("isinstance with non-constant class %r" % (clsval,))
+
+    def isinstance_sym(self, v, clssv):
+        """isinstance(v, C) for a symbolic class object C of the package"""
+        self.need_subclass_fn()
+        if isinstance(v, SV) and v.ty.kind == "ref":
+            return "(subclass_id (clsof %s) %s)" % (v.t, clssv.t)
+        if isinstance(v, SV) and v.ty == T.VAL:
+            return AND("((_ is VRef) %s)" % v.t, "(subclass_id (clsof (vref %s)) %s)" % (v.t, clssv.t))
+        return "false"
 
     def isinstance_term(self, v, names):
         """returns (term, narrowed_type_or_None)"""
@@ -599,7 +628,21 @@ class Sem:
         else:
             v = self.coerce(val, ft, "for field %s.%s" % (dcls, field))
         arr = self.heap_term(st, key, ft)
-        return st.with_heap(key, "(store %s %s %s)" % (arr, obj.t, v.t))
+        st, vt = self.name_term(st, v.t, self.cx.sorts.sort(ft), "v_" + field.strip("_"))
+        return self.set_heap(st, key, "(store %s %s %s)" % (arr, obj.t, vt), ft)
+
+    NAME_THRESHOLD = 120
+
+    def name_term(self, st, term, sort, prefix):
+        """introduce a name for a large term (x = term as a definitional hypothesis): keeps queries small"""
+        if len(term) <= self.NAME_THRESHOLD:
+            return st, term
+        nm = self.cx.fresh_sort(prefix, sort)
+        return st.assume("(= %s %s)" % (nm, term)), nm
+
+    def set_heap(self, st, key, term, ft):
+        st, t = self.name_term(st, term, "(Array Int %s)" % self.cx.sorts.sort(ft), "H_%s_%s" % (key[0], key[1].strip("<>_")))
+        return st.with_heap(key, t)
 
     def dict_self(self, obj, st):
         sc = self.schema_for(obj.ty.args[0])
@@ -614,7 +657,8 @@ class Sem:
         mt = T.Map(kk, vv)
         key = (sc.cls, "<dict>")
         arr = self.heap_term(st, key, mt)
-        return st.with_heap(key, "(store %s %s %s)" % (arr, obj.t, newmap.t))
+        st, vt = self.name_term(st, newmap.t, self.cx.sorts.sort(mt), "v_dict")
+        return self.set_heap(st, key, "(store %s %s %s)" % (arr, obj.t, vt), mt)
 
     # ---------------------------------------------------------------- maps / sets
     def map_has(self, m, k):
@@ -646,6 +690,10 @@ class Sem:
             mk, tab, keyf = T.qm_names(vv)
             S.sort(m.ty)
             cell = "(select (%s %s) %s)" % (tab, m.t, self.qkey(k))
+            if T.total_map_value(vv) and isinstance(k, SV) and k.ty.kind == "opt":
+                # defaultdict[None]: a key that is no qualified name finds nothing (an empty entry)
+                empty = "vs_empty" if vv.kind == "vset" else "(as seq.empty %s)" % S.sort(vv)
+                return SV(ITE(S.is_none(k.ty.args[0], k.t), empty, cell), vv)
             return SV(cell if T.total_map_value(vv) else S.the(vv, cell), vv)
         kk, vv = m.ty.args
         kt = self.key_term(k, kk)
@@ -729,6 +777,28 @@ class Sem:
         """{rkey(r) | r in seq} in the heap of st"""
         hi, ha = self.need_rkey(st)
         return "(reckeysF %s %s %s)" % (seq.t, hi, ha)
+
+    def need_filters(self):
+        """order-preserving filters of a record list, defined by their recursion equations (A1, A2) and the
+        frame lemma (A3: the result depends on the identifier field of the listed records only)"""
+        cx = self.cx
+        if "filtid" in cx.funs_known:
+            return
+        cx.funs_known.add("filtid")
+        self.need_subclass_fn()
+        idm = "(and ((_ is some_QN) (select h r)) (= (qn_uri (the_QN (select h r))) u))"
+        cx.funs.append("(declare-fun filtid ((Seq Int) (Array Int Opt_QN) String) (Seq Int))")
+        cx.funs.append("(assert (forall ((h (Array Int Opt_QN)) (u String)) (= (filtid (as seq.empty (Seq Int)) h u) (as seq.empty (Seq Int)))))")
+        cx.funs.append("(assert (forall ((l (Seq Int)) (r Int) (h (Array Int Opt_QN)) (u String)) (= (filtid (seq.++ l (seq.unit r)) h u) "
+                       "(ite %s (seq.++ (filtid l h u) (seq.unit r)) (filtid l h u)))))" % idm)
+        cx.funs.append("(assert (forall ((l (Seq Int)) (h1 (Array Int Opt_QN)) (h2 (Array Int Opt_QN)) (u String)) "
+                       "(=> (forall ((i Int)) (=> (and (<= 0 i) (< i (seq.len l))) (= (select h1 (seq.nth l i)) (select h2 (seq.nth l i))))) "
+                       "(= (filtid l h1 u) (filtid l h2 u)))))")
+        cx.funs.append("(declare-fun filtcls ((Seq Int) Int) (Seq Int))")
+        cx.funs.append("(assert (forall ((c Int)) (= (filtcls (as seq.empty (Seq Int)) c) (as seq.empty (Seq Int)))))")
+        cx.funs.append("(assert (forall ((l (Seq Int)) (r Int) (c Int)) (= (filtcls (seq.++ l (seq.unit r)) c) "
+                       "(ite (subclass_id (clsof r) c) (seq.++ (filtcls l c) (seq.unit r)) (filtcls l c)))))")
+        cx.notes.append("trusted: frame lemma A3 for filtid (induction on the list, not mechanised)")
 
     def oset_of_seq(self, seq, st):
         cx = self.cx
